@@ -290,17 +290,19 @@ func (i *Struct) Equals(s Item) bool {
 	if !ok {
 		return false
 	}
-	var limit = MaxComparableNumOfItems - 1 // 1 for current element.
-	return i.equalStruct(val, &limit)
+	var (
+		limit             = MaxComparableNumOfItems - 1 // 1 for current element.
+		maxComparableSize = MaxByteArrayComparableSize  // One for the whole comparison, nested structures included.
+	)
+	return i.equalStruct(val, &limit, &maxComparableSize)
 }
 
-func (i *Struct) equalStruct(s *Struct, limit *int) bool {
+func (i *Struct) equalStruct(s *Struct, limit *int, maxComparableSize *int) bool {
 	if i == s {
 		return true
 	} else if len(i.value) != len(s.value) {
 		return false
 	}
-	var maxComparableSize = MaxByteArrayComparableSize
 	for j := range i.value {
 		*limit--
 		if *limit == 0 {
@@ -308,18 +310,18 @@ func (i *Struct) equalStruct(s *Struct, limit *int) bool {
 		}
 		arr, ok := i.value[j].(*ByteArray)
 		if ok {
-			if !arr.equalsLimited(s.value[j], &maxComparableSize) {
+			if !arr.equalsLimited(s.value[j], maxComparableSize) {
 				return false
 			}
 		} else {
-			if maxComparableSize == 0 {
+			if *maxComparableSize == 0 {
 				panic(errTooBigComparable)
 			}
-			maxComparableSize--
+			*maxComparableSize--
 			sa, oka := i.value[j].(*Struct)
 			sb, okb := s.value[j].(*Struct)
 			if oka && okb {
-				if !sa.equalStruct(sb, limit) {
+				if !sa.equalStruct(sb, limit, maxComparableSize) {
 					return false
 				}
 			} else if !i.value[j].Equals(s.value[j]) {
